@@ -9,8 +9,9 @@
 #include <stdlib.h>
 #include <string.h>
 
-#define MAXLEN 13
-#define MAXEL 64
+#define MAXLEN 96
+#define MAXEL 200
+#define GROW_ROOM 13 /* an operation that would take the length beyond prefill+GROW_ROOM is not taken */
 struct st
 {
 	struct json_object *arr;
@@ -19,6 +20,7 @@ struct st
 	int nel;
 	int m[MAXLEN + 8]; /* model: element id or 0 for null */
 	int len;
+	int prefill;
 	int dead;
 };
 static struct st *cur_st;
@@ -98,7 +100,12 @@ static void opname(int op, sb_t *o)
 	static const char *di[] = {"0", "len-1", "len", "len+1", "SIZE_MAX"};
 	switch (kind)
 	{
-	case K_CREATE: sb_printf(o, "new_array(cap#%d)", a); break;
+	case K_CREATE:
+		if (a < 4)
+			sb_printf(o, "new_array(cap#%d)", a);
+		else
+			sb_printf(o, "new_array+prefill#%d", a - 4);
+		break;
 	case K_ADD: sb_printf(o, "add(%s)", a ? "NULL" : "elem"); break;
 	case K_PUT: sb_printf(o, "put_idx(%s,%s)", ix[a >> 1], (a & 1) ? "NULL" : "elem"); break;
 	case K_INSERT: sb_printf(o, "insert_idx(%s,%s)", ix[a >> 1], (a & 1) ? "NULL" : "elem"); break;
@@ -175,9 +182,25 @@ static void apply(void *vs, int op, int check)
 	switch (kind)
 	{
 	case K_CREATE:
-		s->arr = a == 3 ? json_object_new_array() : json_object_new_array_ext(a);
+		s->arr = (a == 3 || a >= 4) ? json_object_new_array() : json_object_new_array_ext(a);
 		if (!s->arr)
 			fail(s, "constructor-failed", "%s returned NULL", what);
+		else if (a >= 4)
+		{
+			/* start from a non-initial state: an array filled up to a capacity-doubling boundary */
+			static const int fills[] = {31, 32, 33, 63, 64};
+			s->prefill = fills[a - 4];
+			for (int i = 0; i < s->prefill; i++)
+			{
+				int id = (i % 5 == 3) ? 0 : new_el(s);
+				if (json_object_array_add(s->arr, id ? s->el[id] : NULL) != 0)
+				{
+					fail(s, "append-failed", "prefill add %d failed", i);
+					return;
+				}
+				s->m[s->len++] = id;
+			}
+		}
 		break;
 	case K_ADD:
 	{
@@ -197,7 +220,7 @@ static void apply(void *vs, int op, int check)
 		size_t i = idx_arg(s, a >> 1);
 		int id = (a & 1) ? 0 : new_el(s);
 		struct json_object *v = id ? s->el[id] : NULL;
-		int ok = i < 64; /* satisfiable; huge indices must be refused */
+		int ok = i < 4096; /* satisfiable; huge indices must be refused */
 		int rc = kind == K_PUT ? json_object_array_put_idx(s->arr, i, v) : json_object_array_insert_idx(s->arr, i, v);
 		if (ok)
 		{
@@ -304,11 +327,12 @@ static int menu(void *vs, int *ops, int cap)
 		return 0;
 	if (!s->arr)
 	{
-		for (int a = 0; a < 4; a++)
+		int ncreate = mc_tier ? 9 : 6; /* quick: capacities + prefill 31, 32; thorough: + 33, 63, 64 */
+		for (int a = 0; a < ncreate; a++)
 			ops[n++] = (K_CREATE << 8) | a;
 		return n;
 	}
-	if (s->len + 4 > MAXLEN || s->nel + 2 >= MAXEL)
+	if (s->len + 4 > s->prefill + GROW_ROOM || s->nel + 2 >= MAXEL)
 	{
 		/* length cap: only non-growing operations */
 		for (int a = 0; a < NDI * NDN; a++)
@@ -331,7 +355,7 @@ static int menu(void *vs, int *ops, int cap)
 static uint64_t key(void *vs)
 {
 	struct st *s = vs;
-	unsigned char k[MAXLEN + 16];
+	unsigned char k[MAXLEN + 32];
 	int n = 0;
 	k[n++] = (unsigned char)s->dead;
 	k[n++] = s->arr ? 1 : 0;
@@ -476,7 +500,7 @@ static void describe(sb_t *o)
 static void enumerate(void)
 {
 	struct bfs_stats st;
-	bfs_run(&cb, (int)mc_opt_int("depth", mc_tier ? 10 : 6), mc_tier ? 6000000 : 1000000, &st);
+	bfs_run(&cb, (int)mc_opt_int("depth", mc_tier ? 8 : 6), mc_tier ? 6000000 : 1000000, &st);
 	MC_COUNT("states", st.states);
 	MC_COUNT("transitions", st.transitions);
 	MC_MAX("depth_completed", st.max_depth_done);
